@@ -255,6 +255,14 @@ class RaisedV(AnalysisError):
         self.exc_name = exc_name
 
 
+MUTATORS = {"append", "extend", "insert", "remove", "pop", "clear", "sort", "reverse", "update", "setdefault", "add", "discard", "fill", "put", "resize",
+            "popitem", "__setitem__", "__delitem__", "drop", "rename", "set_index"}
+
+
+class DataDependentBranch(AnalysisError):
+    """a branch whose condition depends on array data (an elementwise comparison), not on known constants"""
+
+
 class ArrV:
     """numpy array whose trailing axes have constant sizes (e.g. (..., 6, 6)); `batch` leading
     axes are symbolic grid axes.  Cells default to `fill`."""
@@ -293,7 +301,7 @@ class ArrV:
                 if k < 0:
                     k += size
                 if not 0 <= k < size:
-                    raise ev.err(f"constant index {k} out of bounds for axis of size {size}", n, mod)
+                    raise RaisedV("IndexError", f"{mod.rel}:{getattr(n, 'lineno', 0)}" if mod else "")
                 sets.append([k])
                 scalar.append(True)
         return sets, scalar
@@ -320,6 +328,7 @@ class Ev:
         self.depth = 0
         self.inlined = set()
         self.call_sites = 0
+        self.epoch = 0          # bumped at every store to object/container state (plain-property cache validity)
 
     # ------------------------------------------------------------ helpers
     def err(self, msg, node=None, mod: Mod | None = None):
@@ -405,8 +414,14 @@ class Ev:
             return BoundLib(f"list.{name}", v)
         if isinstance(v, MatchV) and name in ("group", "groups"):
             return BoundLib(f"match.{name}", v)
-        if isinstance(v, ArrV) and name in ("astype", "copy"):
-            return BoundLib("identity_method", v)
+        if isinstance(v, ArrV) and name == "copy":
+            return BoundLib("ndarray.copy", v)
+        if isinstance(v, ArrV) and name == "astype":
+            return BoundLib("ndarray.copy", v)
+        if isinstance(v, ArrV) and name in ("min", "max", "sum", "mean"):
+            return BoundLib(f"arr.{name}", v)
+        if isinstance(v, ArrV) and name == "ndim":
+            return sp.Integer(v.batch + len(v.shape))
         if isinstance(v, ArrV) and name == "shape":
             return Tup([sp.Symbol(f"dim{i}", positive=True, integer=True) for i in range(v.batch)] + [sp.Integer(x) for x in v.shape])
         if isinstance(v, ArrV) and name == "T" and len(v.shape) == 2 and v.batch == 0:
@@ -437,10 +452,13 @@ class Ev:
             oref = f"{owner.split(':')[0]}:{owner.split(':')[1]}.{name}"
             omod = self.model.mods[owner.split(":")[0]]
             if kind in ("property", "lazy"):
+                # a LazyProperty is computed once per object (its real semantics); a plain property is re-evaluated
+                # whenever any object state was stored to since (epoch), so a re-pointed attribute is seen
                 pc = obj.__dict__.setdefault("_prop_cache", {})
                 key = (id(self), oref)
-                if key not in pc:
-                    pc[key] = (self, self.call_def(f, omod, oref, [obj], {}))
+                ep = None if kind == "lazy" else self.epoch
+                if key not in pc or pc[key][2] != ep:
+                    pc[key] = (self, self.call_def(f, omod, oref, [obj], {}), ep)
                 return pc[key][1]
             if kind == "method":
                 return FuncV(oref, bound=obj)
@@ -512,6 +530,9 @@ class Ev:
             return sp.pi
         if full in ("scipy.constants.physical_constants",):
             return LibV(full)
+        if full.startswith("scipy.constants.") and full.rsplit(".", 1)[1] in U.SCIPY_DIRECT:
+            q, unit = U.PHYSICAL_CONSTANTS[U.SCIPY_DIRECT[full.rsplit(".", 1)[1]]]
+            return q / unit
         return LibV(full)
 
     def from_resolution(self, kind, ref, node=None, mod=None):
@@ -530,9 +551,7 @@ class Ev:
                 self.cache[key] = self.eval(self.model.mods[mname].globals[q], {}, self.model.mods[mname])
             return self.cache[key]
         if kind == "ext":
-            if ref == "numpy.newaxis":
-                return None
-            return LibV(ref)
+            return self.lib_attr(ref, node, mod)
         if kind == "classmember":
             cref, name = ref.rsplit(".", 1)
             return self.get_attr(ClsV(cref), name, node, mod)
@@ -793,6 +812,8 @@ class Ev:
             return bool(v.d)
         if isinstance(v, Obj):
             return True
+        if isinstance(v, (CondV, TolCond)):
+            raise DataDependentBranch(f"branch on array data [{getattr(v, 'text', '?')}]", f"{mod.rel}:{getattr(n, 'lineno', 0)}" if mod else "")
         raise self.err(f"branch on a value that is not a known constant ({type(v).__name__})", n, mod)
 
     def e_Compare(self, n, env, mod):
@@ -850,6 +871,8 @@ class Ev:
                 r = b.sym_contains(self, a, n, mod)
             elif isinstance(b, Tup) and const(a) and const(b):
                 r = py(a) in [py(i) for i in b.items]
+            elif isinstance(b, RangeV) and is_sym(a) and a.is_number:
+                r = a.is_Integer and int(a) in range(b.lo, b.hi, b.step)
             elif isinstance(b, DictV) and const(a):
                 r = a in b.d
             elif isinstance(b, str) and isinstance(a, str):
@@ -1106,6 +1129,8 @@ class Ev:
         if isinstance(f, ConvV):
             return as_sym(args[0]) * f.factor
         if isinstance(f, BoundLib):
+            if f.name.rsplit(".", 1)[-1] in MUTATORS:
+                self.epoch += 1
             return self.call_lib(f.name, [f.recv] + args, kwargs, n, mod)
         if isinstance(f, LibV):
             return self.call_lib(f.name, args, kwargs, n, mod)
@@ -1260,12 +1285,25 @@ class Ev:
             return
         if isinstance(t, (ast.Tuple, ast.List)):
             items = self.iterate(v, t, mod)
+            stars = [i for i, e in enumerate(t.elts) if isinstance(e, ast.Starred)]
+            if len(stars) == 1:
+                k = stars[0]
+                after = len(t.elts) - k - 1
+                if len(items) < len(t.elts) - 1:
+                    raise RaisedV("ValueError", f"{mod.rel}:{getattr(t, 'lineno', 0)}" if mod else "")
+                for tt, vv in zip(t.elts[:k], items[:k]):
+                    self.assign(tt, vv, env, mod)
+                self.assign(t.elts[k].value, Tup(list(items[k:len(items) - after]), "list"), env, mod)
+                for tt, vv in zip(t.elts[k + 1:], items[len(items) - after:] if after else []):
+                    self.assign(tt, vv, env, mod)
+                return
             if len(items) != len(t.elts):
                 raise self.err(f"unpack arity: {len(t.elts)} targets, {len(items)} values", t, mod)
             for tt, vv in zip(t.elts, items):
                 self.assign(tt, vv, env, mod)
             return
         if isinstance(t, ast.Attribute):
+            self.epoch += 1
             base = self.eval(t.value, env, mod)
             if hasattr(base, "sym_setattr"):
                 return base.sym_setattr(self, t.attr, v, t, mod)
@@ -1278,6 +1316,7 @@ class Ev:
         raise self.err("unsupported assignment target", t, mod)
 
     def store_subscript(self, t, v, env, mod):
+        self.epoch += 1
         base = self.eval(t.value, env, mod)
         idx = self.eval(t.slice, env, mod)
         if hasattr(base, "sym_store"):
@@ -1342,7 +1381,12 @@ class Ev:
         raise self.err("expression statement", st, mod)
 
     def s_If(self, st, env, mod):
-        t = self.truth(self.eval(st.test, env, mod), st.test, mod)
+        try:
+            t = self.truth(self.eval(st.test, env, mod), st.test, mod)
+        except DataDependentBranch:
+            if all(is_logging_stmt(x) for x in st.body + st.orelse):
+                return          # a data-dependent diagnostic: no effect on values
+            raise
         self.exec_body(st.body if t else st.orelse, env, mod)
 
     def s_While(self, st, env, mod):
@@ -1534,6 +1578,21 @@ def indexed(base, idx):
     return Indexed(base, sp.Symbol("idx[" + ",".join(map(repr, idx)) + "]"))
 
 
+class _AllRows:
+    def __repr__(self):
+        return "<all rows>"
+
+
+ALLROWS = _AllRows()
+
+
+def edge_padded(x):
+    """x with its first and last element repeated once (x[[0, *range(len(x)), -1]] == numpy.pad(x, 1, mode='edge'))"""
+    from .opaque import scalar_part
+    c, r = scalar_part(x)
+    return c * indexed(r, (sp.Integer(0), ALLROWS, sp.Integer(-1)))
+
+
 def is_indexed(t):
     return getattr(t, "func", None) == Indexed
 
@@ -1551,7 +1610,7 @@ STR_METHODS = {"lower", "upper", "strip", "split", "startswith", "endswith", "jo
 
 BUILTINS = {"len", "range", "tuple", "list", "sorted", "zip", "map", "int", "float", "str", "sum", "abs", "min",
             "max", "round", "set", "dict", "enumerate", "isinstance", "next", "reversed", "any", "all", "open",
-            "print", "type", "callable", "getattr", "repr", "hash", "bool"}
+            "print", "type", "callable", "getattr", "repr", "hash", "bool", "slice"}
 
 
 _LOC_CACHE, _GEN_CACHE = {}, {}
@@ -1755,7 +1814,12 @@ def lib_str(ev, a, k, n, mod):
 
 
 def lib_copy(ev, a, k, n, mod):
-    return a[0]
+    x = a[0]
+    if isinstance(x, ArrV):
+        return ArrV(x.batch, x.shape, x.fill, dict(x.cells), x.sym_of)
+    if isinstance(x, Tup) and x.kind == "list":
+        return Tup(list(x.items), "list")
+    return x
 
 
 def lib_where(ev, a, k, n, mod):
@@ -2071,6 +2135,43 @@ def lib_list_append(ev, a, k, n, mod):
     return None
 
 
+def lib_list_extend(ev, a, k, n, mod):
+    a[0].items.extend(ev.iterate(a[1], n, mod))
+    return None
+
+
+lib_list_extend.kw = set()
+
+
+def lib_np_pad(ev, a, k, n, mod):
+    """numpy.pad(x, w, mode='edge') of a vector with one constant axis (w: int or (before, after))"""
+    x = a[0]
+    width = a[1] if len(a) > 1 else k.get("pad_width")
+    mode = k.get("mode", a[2] if len(a) > 2 else "constant")
+    if set(k) - {"pad_width", "mode"} or mode != "edge":
+        raise ev.err("numpy.pad: only mode='edge' is modelled", n, mod)
+    if isinstance(width, Tup):
+        ws = [_const_int(w) for w in width.items]
+        if len(ws) != 2:
+            raise ev.err("numpy.pad: per-axis widths not modelled", n, mod)
+        before, after = ws
+    else:
+        before = after = _const_int(width)
+    if is_sym(x) and before == after == 1:
+        return edge_padded(x)
+    if isinstance(x, Tup):
+        items = list(x.items)
+        return Tup([items[0]] * before + items + [items[-1]] * after, "list")
+    if isinstance(x, ArrV) and x.batch == 0 and len(x.shape) == 1:
+        vals = [x.get((i,)) for i in range(x.shape[0])]
+        vals = [vals[0]] * before + vals + [vals[-1]] * after
+        return ArrV(0, (len(vals),), cells={(i,): v for i, v in enumerate(vals)})
+    raise ev.err("numpy.pad of this operand is not modelled", n, mod)
+
+
+lib_np_pad.kw = None
+
+
 def lib_list_index(ev, a, k, n, mod):
     want = hkey(a[1])
     for i, x in enumerate(a[0].items):
@@ -2099,6 +2200,8 @@ def lib_any(ev, a, k, n, mod):
     v = a[0]
     if isinstance(v, bool):
         return v
+    if isinstance(v, (CondV, TolCond)):
+        return v
     if isinstance(v, Tup):
         return any(ev.truth(i, n, mod) for i in v.items)
     raise ev.err("any() of a non-constant", n, mod)
@@ -2107,6 +2210,8 @@ def lib_any(ev, a, k, n, mod):
 def lib_all(ev, a, k, n, mod):
     v = a[0]
     if isinstance(v, bool):
+        return v
+    if isinstance(v, (CondV, TolCond)):
         return v
     if isinstance(v, Tup):
         return all(ev.truth(i, n, mod) for i in v.items)
@@ -2117,7 +2222,7 @@ def lib_enumerate(ev, a, k, n, mod):
     return Tup([Tup([sp.Integer(i), x]) for i, x in enumerate(ev.iterate(a[0], n, mod))], "list")
 
 
-LIB.update({"ndarray.astype": lambda ev, a, k, n, mod: a[0], "identity_method": lambda ev, a, k, n, mod: a[0], "list.append": lib_list_append, "list.index": lib_list_index, "list.tolist": lib_list_tolist,
+LIB.update({"ndarray.astype": lambda ev, a, k, n, mod: a[0], "identity_method": lambda ev, a, k, n, mod: a[0], "list.append": lib_list_append, "list.extend": lib_list_extend, "numpy.pad": lib_np_pad, "list.index": lib_list_index, "list.tolist": lib_list_tolist,
             "list.copy": lib_list_tolist, "next": lib_next, "any": lib_any, "all": lib_all, "numpy.any": lib_any,
             "numpy.all": lib_all, "enumerate": lib_enumerate})
 
@@ -2160,6 +2265,78 @@ def lib_np_sum(ev, a, k, n, mod):
 
 lib_np_sum.kw = {"axis", "keepdims"}
 LIB["numpy.sum"] = lib_np_sum
+
+
+def _const_axis(ev, x, axis, n, mod):
+    ai = _const_int(axis)
+    rank = x.batch + len(x.shape)
+    if ai < 0:
+        ai += rank
+    ax = ai - x.batch
+    if not 0 <= ai < rank:
+        raise RaisedV("AxisError", f"{mod.rel}:{getattr(n, 'lineno', 0)}" if mod else "")
+    if ax < 0:
+        raise ev.err("reduction over a grid axis of an array", n, mod)
+    return ax
+
+
+def _weights_list(ev, w, n, mod):
+    if isinstance(w, ArrV) and w.batch == 0 and len(w.shape) == 1:
+        return [as_sym(w.get((j,))) for j in range(w.shape[0])]
+    if isinstance(w, Tup):
+        return [as_sym(x) for x in w.items]
+    raise ev.err("weights of a mean are not a constant-length vector", n, mod)
+
+
+def lib_np_average(fallback, allow_weights):
+    """numpy.average / numpy.mean of an array with constant trailing axes along one of them (weights: constant-length vector;
+    normalised by their sum as numpy does; a length mismatch raises as numpy does)"""
+    def f(ev, a, k, n, mod):
+        x = a[0]
+        if not isinstance(x, ArrV):
+            if fallback is None:
+                raise ev.err("mean of this operand is not modelled", n, mod)
+            return fallback(ev, a, k, n, mod)
+        extra = set(k) - {"axis", "weights"} if allow_weights else set(k) - {"axis"}
+        if extra:
+            raise ev.err(f"keyword(s) {sorted(extra)} of a mean are not modelled", n, mod)
+        axis = k.get("axis", a[1] if len(a) > 1 else None)
+        w = k.get("weights", a[2] if len(a) > 2 else None) if allow_weights else None
+        if axis is None:
+            raise ev.err("mean over all axes of a grid array", n, mod)
+        ax = _const_axis(ev, x, axis, n, mod)
+        size = x.shape[ax]
+        if w is None:
+            ws = [sp.Integer(1)] * size
+        else:
+            ws = _weights_list(ev, w, n, mod)
+            if len(ws) != size:
+                raise RaisedV("ValueError", f"{mod.rel}:{getattr(n, 'lineno', 0)}" if mod else "")
+        rest = [d for i, d in enumerate(x.shape) if i != ax]
+        out = ArrV(x.batch, rest)
+        den = sum(ws)
+        for key in itertools.product(*[range(d) for d in rest]):
+            tot = sp.Integer(0)
+            for j in range(size):
+                full = list(key)
+                full.insert(ax, j)
+                tot += ws[j] * as_sym(x.get(tuple(full)))
+            out.cells[tuple(key)] = tot / den
+        return out if rest else out.get(())
+    f.kw = None
+    return f
+
+
+def lib_slice(ev, a, k, n, mod):
+    vals = [None if v is None else v for v in a]
+    if len(vals) == 1:
+        return SliceV(None, vals[0], None)
+    while len(vals) < 3:
+        vals.append(None)
+    return SliceV(*vals[:3])
+
+
+lib_slice.kw = set()
 
 
 def lib_dict_update(ev, a, k, n, mod):
@@ -2382,7 +2559,7 @@ LIB.update({
     "numpy.negative": _elementwise(lambda x: -x), "numpy.square": _elementwise(lambda x: x ** 2),
     "numpy.reciprocal": _elementwise(lambda x: 1 / x), "numpy.conj": _elementwise(sp.conjugate), "numpy.conjugate": _elementwise(sp.conjugate),
     "numpy.asarray": _ID, "numpy.ascontiguousarray": _ID, "numpy.asfarray": _ID, "numpy.float64": _ID, "numpy.atleast_1d": _ID,
-    "numpy.mean": lib_opaque_reduce("MEAN"), "numpy.amin": lib_opaque_reduce("MIN"), "numpy.amax": lib_opaque_reduce("MAX"),
+    "numpy.mean": lib_np_average(lib_opaque_reduce("MEAN"), False), "numpy.average": lib_np_average(None, True), "slice": lib_slice, "numpy.amin": lib_opaque_reduce("MIN"), "numpy.amax": lib_opaque_reduce("MAX"),
     "numpy.min": lib_opaque_reduce("MIN"), "numpy.max": lib_opaque_reduce("MAX"),
     "numpy.isclose": lib_isclose_sym, "numpy.where": lib_where3, "numpy.inner": lib_inner, "numpy.dot": lib_dot, "numpy.matmul": lib_dot,
     "numpy.searchsorted": lib_searchsorted,
@@ -2432,3 +2609,19 @@ def lib_dict_setdefault(ev, a, k, n, mod):
 
 
 LIB.update({"dict.clear": lib_dict_clear, "dict.setdefault": lib_dict_setdefault})
+
+
+def _arr_reduce(fn):
+    def f(ev, a, k, n, mod):
+        x = a[0]
+        vals = [sp.sympify(x.get(key)) for key in itertools.product(*[range(d) for d in x.shape])]
+        if k or len(a) > 1:
+            raise ev.err("axis-wise reduction of a small array is not modelled", n, mod)
+        if all(v.is_number for v in vals):
+            return fn(vals)
+        raise ev.err("reduction of a non-constant small array", n, mod)
+    return f
+
+
+LIB.update({"arr.min": _arr_reduce(min), "arr.max": _arr_reduce(max), "arr.sum": _arr_reduce(lambda v: sum(v, sp.Integer(0))),
+            "arr.mean": _arr_reduce(lambda v: sum(v, sp.Integer(0)) / len(v))})
